@@ -4,64 +4,69 @@ package c14compile
 
 import (
 	"fmt"
+	"os"
+	"path/filepath"
+	"sort"
 	"strings"
 	"testing"
-	"time"
-
-	"github.com/nspcc-dev/neo-go/pkg/compiler"
-	"github.com/nspcc-dev/neo-go/pkg/smartcontract/callflag"
-	"github.com/nspcc-dev/neo-go/pkg/vm"
 )
 
+// TestProbe: manual exploration tool. C14_PROBE_DIR holds *.go files (one program each); every exported function with
+// transportable types is run on boundary arguments on both sides and the differences are printed.
 func TestProbe(t *testing.T) {
-	src := `package foo
-type S struct { A int; B int }
-var g = 5
-func F(a int, b int) int {
-	s := S{a, b}
-	u := s
-	u.A = 7
-	g += 1
-	x, _ := g2(a); return s.A*10 + u.A + g + a / b + x
-}
-func g2(a int) (int, bool) {
-	m := map[int]int{1: 2}
-	v, ok := m[a]
-	return v, ok
-}
-`
-	for i := 0; i < 3; i++ {
-		t0 := time.Now()
-		nf, di, err := compiler.CompileWithOptions("foo.go", strings.NewReader(src), nil)
-		fmt.Println("compile", time.Since(t0), err)
+	dir := os.Getenv("C14_PROBE_DIR")
+	if dir == "" {
+		t.Skip("no C14_PROBE_DIR")
+	}
+	files, _ := filepath.Glob(filepath.Join(dir, "*.go"))
+	sort.Strings(files)
+	var units []*Unit
+	for _, f := range files {
+		b, _ := os.ReadFile(f)
+		id := strings.TrimSuffix(filepath.Base(f), ".go")
+		u, err := makeUnit(id, string(b), nil)
 		if err != nil {
-			t.Fatal(err)
+			fmt.Printf("TYPE-ERROR %s: %v\n", id, err)
+			continue
 		}
-		for _, m := range di.Methods {
-			fmt.Printf("%+v\n", m)
-		}
-		v := vm.New()
-		v.SetGasLimit(-1)
-		v.LoadScriptWithFlags(nf.Script, callflag.All)
-		var off, ini = -1, -1
-		for _, m := range di.Methods {
-			if m.Name.Name == "F" || m.ID == "F" {
-				off = int(m.Range.Start)
+		units = append(units, u)
+	}
+	r, err := differential(scratch("probe-go"), units)
+	if err != nil {
+		t.Fatal(err)
+	}
+	for id, e := range r.Refused {
+		fmt.Printf("REFUSED %s: %v\n", id, e)
+	}
+	for id, e := range r.GoRefused {
+		fmt.Printf("GO-REFUSED %s: %v\n", id, e)
+	}
+	same, diff := 0, 0
+	byFn := map[string][]string{}
+	for _, c := range r.Cases {
+		k := c.Key.Prog + ":" + c.Key.Fn
+		if c.Differs() {
+			diff++
+			byFn[k] = append(byFn[k], c.String())
+		} else {
+			same++
+			if os.Getenv("C14_PROBE_V") != "" {
+				fmt.Println("  same", c.String())
 			}
-			if m.ID == "_initialize" {
-				ini = int(m.Range.Start)
-			}
-		}
-		v.Context().Jump(off)
-		v.Estack().PushVal(0)
-		v.Estack().PushVal(3)
-		if ini >= 0 {
-			v.Call(ini)
-		}
-		err = v.Run()
-		fmt.Println("run", err, v.Estack().Len())
-		if err == nil {
-			fmt.Println(v.Estack().Pop().Item())
 		}
 	}
+	ks := make([]string, 0, len(byFn))
+	for k := range byFn {
+		ks = append(ks, k)
+	}
+	sort.Strings(ks)
+	for _, k := range ks {
+		fmt.Printf("DIFF %s (%d cases)\n", k, len(byFn[k]))
+		for i, s := range byFn[k] {
+			if i < 3 {
+				fmt.Println("   ", s)
+			}
+		}
+	}
+	fmt.Printf("cases same=%d differ=%d\n", same, diff)
 }
